@@ -11,68 +11,27 @@ import (
 func try(name string, f func() string) {
 	defer func() {
 		if r := recover(); r != nil {
-			fmt.Printf("%-50s PANIC %v\n", name, r)
+			fmt.Printf("%-30s PANIC %v\n", name, r)
 		}
 	}()
-	fmt.Printf("%-50s %s\n", name, f())
-}
-
-type Row struct {
-	K string
-	V string
-	L []*Row
-	C *Row
-}
-type Root struct {
-	L []*Row
-	C *Row
-	X string
-	N int
+	fmt.Printf("%-30s %s\n", name, f())
 }
 
 func main() {
 	y := `module k { namespace "urn:k"; prefix k; revision 0;
-	 grouping g { list l { key k; leaf k { type string; } leaf v { type string; } uses g; } }
-	 grouping h { container c { leaf k { type string; } leaf v { type string; } uses h; } }
-	 uses g; uses h; leaf x { type string; } leaf n { type int32; } }`
+	choice top { leaf t1 {type string;} leaf t2 {type string;} }
+	container k { choice ch { case a { leaf x {type string;} choice in { leaf p {type string;} leaf q {type string;} } } case b { leaf y {type string;} } } }
+	container s { config false; choice sc { leaf s1 { type string; } leaf s2 { type string; } } } }`
 	m, err := parser.LoadModuleFromString(nil, y)
 	if err != nil {
 		panic(err)
 	}
-	doc := `{"l":[{"k":"a","v":"1","l":[{"k":"b","v":"2","l":[{"k":"c"}]}]}],"c":{"k":"1","c":{"k":"2","c":{"k":"3"}}},"x":"X","n":5}`
-	for _, be := range []string{"node-map", "reflect-map", "node-struct", "reflect-struct"} {
-		mk := func() *node.Browser {
-			var root node.Node
-			switch be {
-			case "node-map":
-				root = &nodeutil.Node{Object: map[string]interface{}{}}
-			case "reflect-map":
-				root = nodeutil.ReflectChild(map[string]interface{}{})
-			case "node-struct":
-				root = &nodeutil.Node{Object: &Root{}}
-			case "reflect-struct":
-				root = nodeutil.ReflectChild(&Root{})
-			}
-			b := node.NewBrowser(m, root)
-			src, _ := nodeutil.ReadJSON(doc)
-			if err := b.Root().UpsertFrom(src); err != nil {
-				fmt.Println(be, "load:", err)
-			}
-			return b
-		}
-		try(be+" read", func() string { return fmt.Sprint(nodeutil.WriteJSON(mk().Root())) })
-		for _, del := range []string{"x", "n", "l=a/l=b", "l=a/l=b/v", "c/c", "c/c/k", "l=a/l=b/l=c", "l"} {
-			try(be+" delete "+del, func() string {
-				b := mk()
-				s, err := b.Root().Find(del)
-				if err != nil || s == nil {
-					return fmt.Sprint("find ", s, err)
-				}
-				if err := s.Delete(); err != nil {
-					return "delete: " + err.Error()
-				}
-				return fmt.Sprint(nodeutil.WriteJSON(b.Root()))
-			})
-		}
+	mk := func() *node.Browser {
+		local := nodeutil.ReflectChild(map[string]interface{}{"t2": "T", "k": map[string]interface{}{"x": "1", "p": "2"}})
+		remote := nodeutil.ReflectChild(map[string]interface{}{"s": map[string]interface{}{"s2": "S"}})
+		return node.NewBrowser(m, nodeutil.ConfigProxy{}.Node(local, remote))
 	}
+	try("root", func() string { return fmt.Sprint(nodeutil.WriteJSON(mk().Root())) })
+	try("k", func() string { s, _ := mk().Root().Find("k"); return fmt.Sprint(nodeutil.WriteJSON(s)) })
+	try("s", func() string { s, _ := mk().Root().Find("s"); return fmt.Sprint(nodeutil.WriteJSON(s)) })
 }
